@@ -397,6 +397,99 @@ pub fn near_immobile() -> impl Strategy<Value = PosSpec> {
         .prop_map(|(x, imm, sel, g, mn)| near_immobile_pos(x, &imm, sel, g, mn))
 }
 
+/// "False protection" motif: a mover piece X stands on a trap with a single friendly guard G; an
+/// enemy piece v next to G can be pushed by G (possibly into another, unguarded trap). If G does
+/// push, X is captured by the completing step and v possibly by the displacement: both capture
+/// causes, of both colours, inside one turn. With `last` both X and v are the sides' last rabbits
+/// (elimination in the middle of a turn). Extra pieces are scattered away from the motif.
+pub fn motif_pos(sel: &[u8; 8], extras: &[(u8, u8, u8)], gold_to_move: bool, last: bool) -> PosSpec {
+    let mover = gold_to_move;
+    let mut b = Board::empty();
+    let t = m::TRAPS[(sel[0] % 4) as usize];
+    // guard square and enemy square: prefer the straight line towards the next trap
+    let mut best: Option<(u8, u8, u8)> = None;
+    let mut cands: Vec<(u8, u8, u8)> = vec![];
+    for d1 in 0..4u8 {
+        if let Some(g) = m::neighbour(t, d1) {
+            for d2 in 0..4u8 {
+                if let Some(v) = m::neighbour(g, d2) {
+                    if v == t {
+                        continue;
+                    }
+                    for d3 in 0..4u8 {
+                        if let Some(w) = m::neighbour(v, d3) {
+                            if w != g && w != t {
+                                cands.push((g, v, w));
+                            }
+                        }
+                    }
+                }
+            }
+        }
+    }
+    let trapw: Vec<(u8, u8, u8)> = cands.iter().copied().filter(|c| m::is_trap(c.2)).collect();
+    let pool = if sel[1] % 3 != 0 && !trapw.is_empty() { &trapw } else { &cands };
+    if !pool.is_empty() {
+        best = Some(pool[(sel[2] as usize * pool.len()) >> 8]);
+    }
+    let (g, v, w) = best.unwrap();
+    let (kx, kv, kg) = if last {
+        (m::R, m::R, 2 + sel[3] % 5)
+    } else {
+        let kv = 1 + sel[3] % 5; // R..M
+        let kg = kv + 1 + (sel[4] % (m::E - kv));
+        (1 + sel[5] % 6, kv, kg)
+    };
+    b.0[t as usize] = m::mk(mover, kx);
+    b.0[g as usize] = m::mk(mover, kg);
+    b.0[v as usize] = m::mk(!mover, kv);
+    // both sides need a rabbit somewhere unless X / v are the rabbits
+    let mut counts = [[0u8; 7]; 2];
+    counts[mover as usize][kx as usize] += 1;
+    counts[mover as usize][kg as usize] += 1;
+    counts[!mover as usize][kv as usize] += 1;
+    let near = |sq: u8, c: u8| sq == c || m::neighbours(c).any(|n| n == sq);
+    let mut place = |b: &mut Board, gold: bool, k: u8, sqsel: u8| {
+        if counts[gold as usize][k as usize] >= m::COMPLEMENT[k as usize] {
+            return;
+        }
+        for i in 0..64u8 {
+            let sq = (sqsel.wrapping_add(i.wrapping_mul(11))) % 64;
+            if b.at(sq) != m::EMPTY || m::is_trap(sq) || near(sq, t) || near(sq, w) || near(sq, v) || near(sq, g) {
+                continue;
+            }
+            let goal_row = if gold { 0 } else { 7 };
+            if k == m::R && sq / 8 == goal_row {
+                continue;
+            }
+            b.0[sq as usize] = m::mk(gold, k);
+            counts[gold as usize][k as usize] += 1;
+            return;
+        }
+    };
+    if !last {
+        if kx != m::R && kg != m::R {
+            place(&mut b, mover, m::R, sel[6]);
+        }
+        if kv != m::R {
+            place(&mut b, !mover, m::R, sel[7]);
+        }
+    }
+    for &(sqsel, codesel, _) in extras.iter().take(6) {
+        let gold = codesel & 1 == 0;
+        let mut k = KIND_TABLE[((codesel >> 1) & 15) as usize];
+        if last && k == m::R {
+            k = m::C;
+        }
+        place(&mut b, gold, k, sqsel);
+    }
+    PosSpec { board: b, gold_to_move, move_number: move_number_from(sel[6] ^ sel[7]) }
+}
+
+pub fn motif() -> impl Strategy<Value = PosSpec> {
+    (any::<[u8; 8]>(), prop::collection::vec(pick(), 0..6), any::<bool>(), 0u8..4).prop_map(|(sel, extras, g, l)| motif_pos(&sel, &extras, g, l == 0))
+}
+
 fn pick() -> impl Strategy<Value = (u8, u8, u8)> {
     (any::<u8>(), any::<u8>(), any::<u8>())
 }
@@ -457,6 +550,8 @@ pub struct GameParams {
     pub w_frozen: u32,
     /// allow start positions with pieces hanging on traps (only for properties whose text covers them)
     pub hanging: bool,
+    /// weight of "false protection" motif starts (see motif_pos)
+    pub w_motif: u32,
 }
 
 pub fn game(p: GameParams) -> impl Strategy<Value = Case> {
@@ -469,6 +564,7 @@ pub fn game(p: GameParams) -> impl Strategy<Value = Case> {
         }),
         p.w_small => raw_pos_small().prop_map(|r| Start::Pos(build_pos(&r, PosMode::GameStart))),
         p.w_frozen => near_immobile().prop_map(Start::Pos),
+        p.w_motif => motif().prop_map(Start::Pos),
     ];
     (start, prop::collection::vec((any::<u16>(), any::<u8>()), 0..=p.max_ops), any::<u64>())
         .prop_map(|(start, ops, aux)| Case { start, ops, aux })
